@@ -8,7 +8,7 @@ from .c01 import S, A, SEEN, CLEAN, FIN, PAFTER, JOIN
 
 
 def gen(rng, tier):
-    for _ in range(700 if tier == "quick" else 12000):
+    for _ in range(700 if tier == "quick" else 4000):
         yield c01.gen_case(rng, cancel=True)
 
 
